@@ -36,8 +36,21 @@ func CalculateBackoff(cfg BackoffConfig, attempt int) time.Duration {
 
 	jitterAmount := backoff * cfg.Jitter * (rand.Float64()*2 - 1)
 	finalBackoff := backoff + jitterAmount
-	if finalBackoff < 0 {
+	// Again "not at least zero" rather than "below zero": a NaN or infinite
+	// Jitter makes the sum NaN, which must not reach the conversion either.
+	if !(finalBackoff >= 0) {
 		finalBackoff = backoff
+	}
+	if !(finalBackoff >= 0) {
+		// a negative configured backoff: never wait a negative time
+		finalBackoff = 0
+	}
+	// The jitter can push a value capped near the largest duration past it, and
+	// converting a float outside the int64 range gives an arbitrary (on amd64:
+	// the most negative) result. float64(math.MaxInt64) is 2^63, the first value
+	// that does not fit.
+	if finalBackoff >= float64(math.MaxInt64) {
+		return time.Duration(math.MaxInt64)
 	}
 	return time.Duration(finalBackoff)
 }
